@@ -254,6 +254,16 @@ def run_crowd_case(i):
     return run_closure_case((cfg, prefix, sym, False))
 
 
+def run_many_case(n):
+    """n threads of one process all execute on the virtual CPU and then end one after the other (in
+    order, in reverse, or odd ones first): a legal history for any n."""
+    chk = _CTX["chk"]
+    cfg = [-1] * n
+    order = [list(range(n)), list(reversed(range(n))), list(range(1, n, 2)) + list(range(0, n, 2))][n % 3]
+    word = [(ti, "x") for ti in range(n)] + [(ti, "e") for ti in order]
+    return (cfg, word), [judge(cfg, word, "many-threads")]
+
+
 def run_random_case(i):
     chk = _CTX["chk"]
     cfg, word = gen_random(chk, i)
@@ -317,6 +327,10 @@ def main(argv):
         ncrowd += 1
         words.add((tuple(case[0]), tuple(case[1]), case[2]))
         absorb(results, "crowd")
+    # more threads than fit a machine word (or two) attached to one CPU at the same time
+    for (cfg, word), results in core.pmap(run_many_case, [63, 64, 65, 66, 129, 130] if quick else [63, 64, 65, 66, 127, 128, 129, 130, 257, 300]):
+        ncrowd += 1
+        absorb(results, "many-threads")
     # histories in which threads are also moved between CPUs (OAs by the thread itself,
     # OAr by another one): the life-cycle and the no-oversubscription clauses must
     # hold with migrations too (generator, reference model and judge of C05)
